@@ -212,6 +212,9 @@ End Store.
 Section Content.
 Variable S : Type.
 Variable content : R -> S.
+(* which implementation choices can occur at all (e.g. an iteration order is a duplicate-free
+   permutation of the dirty set); the trivial predicate gives the unrestricted statements *)
+Variable okO : O -> Prop.
 
 (* premises: what C06/C07/C09 (execution reads the state through its getters only)
    and C09.4/C10.3 (the root is a function of the content) provide *)
@@ -223,12 +226,12 @@ Definition msg_equiv (m1 m2 : option (msg_result R)) : Prop :=
   | _, _ => False
   end.
 Hypothesis apply_msg_content : forall o1 o2 env idx s1 s2 pool tx,
-  content s1 = content s2 -> msg_equiv (apply_msg o1 env idx s1 pool tx) (apply_msg o2 env idx s2 pool tx).
+  okO o1 -> okO o2 -> content s1 = content s2 -> msg_equiv (apply_msg o1 env idx s1 pool tx) (apply_msg o2 env idx s2 pool tx).
 Hypothesis block_start_content : forall o1 o2 env s1 s2,
-  content s1 = content s2 -> content (block_start o1 env s1) = content (block_start o2 env s2).
+  okO o1 -> okO o2 -> content s1 = content s2 -> content (block_start o1 env s1) = content (block_start o2 env s2).
 Hypothesis finalize_content : forall o1 o2 env us s1 s2,
-  content s1 = content s2 -> content (finalize o1 env us s1) = content (finalize o2 env us s2).
-Hypothesis root_content : forall o1 o2 s1 s2, content s1 = content s2 -> root_of o1 s1 = root_of o2 s2.
+  okO o1 -> okO o2 -> content s1 = content s2 -> content (finalize o1 env us s1) = content (finalize o2 env us s2).
+Hypothesis root_content : forall o1 o2 s1 s2, okO o1 -> okO o2 -> content s1 = content s2 -> root_of o1 s1 = root_of o2 s2.
 
 Definition res_equiv (r1 r2 : results R) : Prop :=
   content (res_state R r1) = content (res_state R r2) /\ res_receipts R r1 = res_receipts R r2 /\
@@ -248,41 +251,41 @@ Definition proc_equiv (a b : option (proc_ok R)) : Prop :=
   end.
 
 Lemma process_txs_content : forall txs o1 o2 env idx s1 s2 pool cum acc,
-  content s1 = content s2 ->
+  okO o1 -> okO o2 -> content s1 = content s2 ->
   proc_equiv (process_txs o1 env idx s1 pool cum txs acc) (process_txs o2 env idx s2 pool cum txs acc).
 Proof.
-  induction txs as [|tx txs IH]; intros o1 o2 env idx s1 s2 pool cum acc Hc; cbn [ImportModel.process_txs].
+  induction txs as [|tx txs IH]; intros o1 o2 env idx s1 s2 pool cum acc K1 K2 Hc; cbn [ImportModel.process_txs].
   - cbn. auto.
   - unfold ImportModel.apply_one.
-    pose proof (apply_msg_content o1 o2 env idx s1 s2 pool tx Hc) as Hm. unfold msg_equiv in Hm.
+    pose proof (apply_msg_content o1 o2 env idx s1 s2 pool tx K1 K2 Hc) as Hm. unfold msg_equiv in Hm.
     destruct (apply_msg o1 env idx s1 pool tx) as [m1|], (apply_msg o2 env idx s2 pool tx) as [m2|];
       try contradiction; [|cbn; exact I].
     destruct Hm as (Hs & Hp & Hg & Hpo & Hl). cbn [ts_state ts_pool ts_cum ts_receipt].
-    rewrite Hp, Hg, Hpo, Hl. apply IH. exact Hs.
+    rewrite Hp, Hg, Hpo, Hl. apply IH; assumption.
 Qed.
 
 Lemma process_content : forall o1 o2 s1 s2 b,
-  content s1 = content s2 -> proc_equiv (process o1 s1 b) (process o2 s2 b).
+  okO o1 -> okO o2 -> content s1 = content s2 -> proc_equiv (process o1 s1 b) (process o2 s2 b).
 Proof.
-  intros o1 o2 s1 s2 b Hc. unfold ImportModel.process.
+  intros o1 o2 s1 s2 b K1 K2 Hc. unfold ImportModel.process.
   pose proof (process_txs_content (b_txs b) o1 o2 (env_of (b_header b)) 0
                 (block_start o1 (env_of (b_header b)) s1) (block_start o2 (env_of (b_header b)) s2)
-                (h_gas_limit (b_header b)) 0 [] (block_start_content _ _ _ _ _ Hc)) as Hp.
+                (h_gas_limit (b_header b)) 0 [] K1 K2 (block_start_content _ _ _ _ _ K1 K2 Hc)) as Hp.
   unfold proc_equiv in Hp.
   destruct (process_txs o1 _ 0 _ _ 0 (b_txs b) []) as [p1|], (process_txs o2 _ 0 _ _ 0 (b_txs b) []) as [p2|];
     try contradiction; [|exact I].
   destruct Hp as (Hs & Hr & Hu). cbn [proc_equiv p_state p_receipts p_used].
-  split; [apply finalize_content; exact Hs|]. split; assumption.
+  split; [apply finalize_content; assumption|]. split; assumption.
 Qed.
 
 Theorem import_depends_on_content_only : forall o1 o2 s1 s2 b,
-  content s1 = content s2 -> import_equiv (import_block o1 s1 b) (import_block o2 s2 b).
+  okO o1 -> okO o2 -> content s1 = content s2 -> import_equiv (import_block o1 s1 b) (import_block o2 s2 b).
 Proof.
-  intros o1 o2 s1 s2 b Hc. unfold ImportModel.import_block.
+  intros o1 o2 s1 s2 b K1 K2 Hc. unfold ImportModel.import_block.
   destruct (validate_body H b); [reflexivity|].
-  pose proof (process_content o1 o2 s1 s2 b Hc) as Hp. unfold proc_equiv in Hp.
+  pose proof (process_content o1 o2 s1 s2 b K1 K2 Hc) as Hp. unfold proc_equiv in Hp.
   destruct (process o1 s1 b) as [p1|], (process o2 s2 b) as [p2|]; try contradiction; [|reflexivity].
-  destruct Hp as (Hs & Hr & Hu). rewrite <- Hr, <- Hu, <- (root_content o1 o2 _ _ Hs).
+  destruct Hp as (Hs & Hr & Hu). rewrite <- Hr, <- Hu, <- (root_content o1 o2 _ _ K1 K2 Hs).
   destruct (validate_state H (b_header b) (p_receipts R p1) (p_used R p1) (root_of o1 (p_state R p1)));
     [reflexivity|].
   cbn [import_equiv]. unfold res_equiv. cbn [res_state res_receipts res_used res_root].
@@ -348,13 +351,13 @@ Qed.
 (* the full statement: the importing node may hold the parent state in another
    representation and take other iteration orders / cache generations *)
 Theorem built_block_imports : forall tx_gas o1 o2 s1 s2 tmpl cands uncles b r,
-  content s1 = content s2 -> h_bloom tmpl = 0 ->
+  okO o1 -> okO o2 -> content s1 = content s2 -> h_bloom tmpl = 0 ->
   build_block tx_gas o1 s1 tmpl cands uncles = (b, r) ->
   exists r', import_block o2 s2 b = Accepted R r' /\ res_equiv r r'.
 Proof.
-  intros tx_gas o1 o2 s1 s2 tmpl cands uncles b r Hc Hbl Hb.
+  intros tx_gas o1 o2 s1 s2 tmpl cands uncles b r K1 K2 Hc Hbl Hb.
   pose proof (built_block_imports_same _ _ _ _ _ _ _ _ Hbl Hb) as Hi.
-  pose proof (import_depends_on_content_only o1 o2 s1 s2 b Hc) as He.
+  pose proof (import_depends_on_content_only o1 o2 s1 s2 b K1 K2 Hc) as He.
   rewrite Hi in He. unfold import_equiv in He.
   destruct (import_block o2 s2 b) as [r'|]; [|contradiction].
   exists r'. split; [reflexivity|exact He].
@@ -424,49 +427,49 @@ Definition set_bloom (h : header) (bl : N) : header :=
    implementation choices, one transaction gives the same gas, status/root bytes,
    logs and gas pool and states of equal content; so do the hard-fork mutations and
    the reward step; and the root is the same.  (C06/C07 on C09's getters; C09.4; C10.3.) *)
-Definition exec_respects_content (R O S : Type) (content : R -> S)
+Definition exec_respects_content (R O S : Type) (content : R -> S) (okO : O -> Prop)
     (apply_msg : O -> exec_env -> N -> R -> N -> bytes -> option (msg_result R))
     (block_start : O -> exec_env -> R -> R)
     (finalize : O -> exec_env -> list header -> R -> R)
     (root_of : O -> R -> bytes) : Prop :=
-  (forall o1 o2 env idx s1 s2 pool tx, content s1 = content s2 ->
+  (forall o1 o2 env idx s1 s2 pool tx, okO o1 -> okO o2 -> content s1 = content s2 ->
      msg_equiv R S content (apply_msg o1 env idx s1 pool tx) (apply_msg o2 env idx s2 pool tx)) /\
-  (forall o1 o2 env s1 s2, content s1 = content s2 ->
+  (forall o1 o2 env s1 s2, okO o1 -> okO o2 -> content s1 = content s2 ->
      content (block_start o1 env s1) = content (block_start o2 env s2)) /\
-  (forall o1 o2 env us s1 s2, content s1 = content s2 ->
+  (forall o1 o2 env us s1 s2, okO o1 -> okO o2 -> content s1 = content s2 ->
      content (finalize o1 env us s1) = content (finalize o2 env us s2)) /\
-  (forall o1 o2 s1 s2, content s1 = content s2 -> root_of o1 s1 = root_of o2 s2).
+  (forall o1 o2 s1 s2, okO o1 -> okO o2 -> content s1 = content s2 -> root_of o1 s1 = root_of o2 s2).
 
-Theorem import_content_only : forall (H : bytes -> bytes) (R O S : Type) (content : R -> S)
+Theorem import_content_only : forall (H : bytes -> bytes) (R O S : Type) (content : R -> S) (okO : O -> Prop)
     apply_msg block_start finalize root_of,
-  exec_respects_content R O S content apply_msg block_start finalize root_of ->
-  forall o1 o2 s1 s2 b, content s1 = content s2 ->
+  exec_respects_content R O S content okO apply_msg block_start finalize root_of ->
+  forall o1 o2 s1 s2 b, okO o1 -> okO o2 -> content s1 = content s2 ->
   import_equiv R S content (import_block H R O apply_msg block_start finalize root_of o1 s1 b)
                            (import_block H R O apply_msg block_start finalize root_of o2 s2 b).
 Proof.
-  intros H R O S content am bs fin ro (H1 & H2 & H3 & H4).
-  exact (import_depends_on_content_only H R O am bs fin ro S content H1 H2 H3 H4).
+  intros H R O S content okO am bs fin ro (H1 & H2 & H3 & H4).
+  exact (import_depends_on_content_only H R O am bs fin ro S content okO H1 H2 H3 H4).
 Qed.
 
-Theorem built_imports : forall (H : bytes -> bytes) (R O S : Type) (content : R -> S)
+Theorem built_imports : forall (H : bytes -> bytes) (R O S : Type) (content : R -> S) (okO : O -> Prop)
     apply_msg block_start finalize root_of,
-  exec_respects_content R O S content apply_msg block_start finalize root_of ->
+  exec_respects_content R O S content okO apply_msg block_start finalize root_of ->
   forall tx_gas o1 o2 s1 s2 tmpl cands uncles b r,
-  content s1 = content s2 -> h_bloom tmpl = 0 ->
+  okO o1 -> okO o2 -> content s1 = content s2 -> h_bloom tmpl = 0 ->
   build_block H R O apply_msg block_start finalize root_of tx_gas o1 s1 tmpl cands uncles = (b, r) ->
   exists r', import_block H R O apply_msg block_start finalize root_of o2 s2 b = Accepted R r' /\
              res_equiv R S content r r'.
 Proof.
-  intros H R O S content am bs fin ro (H1 & H2 & H3 & H4).
-  exact (built_block_imports H R O am bs fin ro S content H1 H2 H3 H4).
+  intros H R O S content okO am bs fin ro (H1 & H2 & H3 & H4).
+  exact (built_block_imports H R O am bs fin ro S content okO H1 H2 H3 H4).
 Qed.
 
-Lemma ex_respects : exec_respects_content N unit N (fun s => s) ex_apply ex_start ex_finalize ex_root.
+Lemma ex_respects : exec_respects_content N unit N (fun s => s) (fun _ => True) ex_apply ex_start ex_finalize ex_root.
 Proof.
   unfold exec_respects_content. repeat split.
-  - intros [] [] env idx s1 s2 pool tx E. cbv beta in E. subst s2.
+  - intros [] [] env idx s1 s2 pool tx _ _ E. cbv beta in E. subst s2.
     unfold msg_equiv. destruct (ex_apply tt env idx s1 pool tx); auto.
-  - intros [] [] env s1 s2 E. cbv beta in *. now subst.
-  - intros [] [] env us s1 s2 E. cbv beta in *. now subst.
-  - intros [] [] s1 s2 E. cbv beta in *. now subst.
+  - intros [] [] env s1 s2 _ _ E. cbv beta in *. now subst.
+  - intros [] [] env us s1 s2 _ _ E. cbv beta in *. now subst.
+  - intros [] [] s1 s2 _ _ E. cbv beta in *. now subst.
 Qed.
